@@ -32,7 +32,8 @@ CONSTANTS Root,                  \* inode of the root directory
           DevMkdirNoNlinkRule,   \* literal: ext2fs_mkdir does parent.i_links_count++ with no dir_nlink saturation
           DevKillLeaksEaBlock,   \* literal: debugfs kill_file_by_inode leaves the victim's xattr block allocated
           DevMkdirExistsLeak,    \* literal: ext2fs_mkdir of an existing name writes the new inode before it looks the name up
-          DevSymlinkExistsLeak   \* literal: ext2fs_symlink of an existing name does the same
+          DevSymlinkExistsLeak,  \* literal: ext2fs_symlink of an existing name does the same
+          DevMkdirNoEmlink       \* literal: without dir_nlink ext2fs_mkdir does not refuse a parent that already has EXT2_LINK_MAX links
 
 FTDIR == 2
 Dom(f) == DOMAIN f
@@ -47,15 +48,36 @@ Entries(s) == UNION {{<<d, n>> : n \in DOMAIN s.ent[d]} : d \in DOMAIN s.ent}
 Names(s, i) == Cardinality({e \in Entries(s) : s.ent[e[1]][e[2]][1] = i})
 SubDirs(s, i) == Cardinality({c \in DOMAIN s.dd : s.dd[c] = i})            \* ".." entries naming i (the root names itself)
 Refs(s, i) == Names(s, i) + (IF s.ty[i] = FTDIR THEN 1 + SubDirs(s, i) ELSE 0)
-Want(s, i) == LET r == Refs(s, i) IN IF s.ty[i] = FTDIR /\ r > LinkMax THEN 1 ELSE r
+\* ---- the rules of the stored count as functions of numbers (ty = type, l = stored count, r = references, sat = saturated before):
+\*      used below on the state record and by the count abstraction Trace_DirNlink.tla on directories with tens of thousands of subdirectories
+WantOf(ty, r) == IF ty = FTDIR /\ r > LinkMax THEN 1 ELSE r
+SaturatedOf(ty, l, r, sat) == ty = FTDIR /\ l = 1 /\ (sat \/ r > LinkMax)
+LinksOK(ty, l, r, sat) == l = WantOf(ty, r) \/ SaturatedOf(ty, l, r, sat)
+OverflowAllowed(ty, r) == ty = FTDIR /\ r > LinkMax => DirNlink
+\* mkdir in a parent whose stored count is l: without dir_nlink a directory holds at most LinkMax links and the request is refused
+\* (EMLINK, nothing changes: ext4_mkdir tests EXT4_DIR_LINK_MAX first); with dir_nlink the count saturates to 1 and stays there
+MkdirRefusedLinks(l) == ~DevMkdirNoEmlink /\ ~DirNlink /\ l >= LinkMax
+MkdirLinksOf(l) ==
+   LET nl == l + 1 IN
+   IF DevMkdirNoNlinkRule THEN nl % LinkMod
+   ELSE IF DirNlink /\ (nl > LinkMax \/ l = 1) THEN 1 ELSE nl % LinkMod
+\* rmdir (debugfs do_rmdir): the parent's count drops unless it reads 0 or 1
+RmdirParentLinks(l) == IF l > 1 THEN l - 1 ELSE l
+\* the boundary catalogue of the link-count rule: stored counts of the parent around LinkMax (and the overflowed value 1) x operation
+NlinkCatalogue == {[dirnlink |-> IF DirNlink THEN 1 ELSE 0, links |-> l, op |-> o,
+                    refused |-> IF o = "mkdir" /\ MkdirRefusedLinks(l) THEN 1 ELSE 0,
+                    after |-> IF o = "mkdir" THEN (IF MkdirRefusedLinks(l) THEN l ELSE MkdirLinksOf(l)) ELSE RmdirParentLinks(l)]
+                   : l \in {LinkMax - 2, LinkMax - 1, LinkMax} \cup (IF DirNlink THEN {1} ELSE {}), o \in {"mkdir", "rmdir"}}
+
+Want(s, i) == WantOf(s.ty[i], Refs(s, i))
 \* under dir_nlink a directory count that overflowed reads 1 and stays 1
-Saturated(s, i) == s.ty[i] = FTDIR /\ s.links[i] = 1 /\ (i \in s.sat \/ Refs(s, i) > LinkMax)
+Saturated(s, i) == SaturatedOf(s.ty[i], s.links[i], Refs(s, i), i \in s.sat)
 Dangling(s) == {e \in Entries(s) : s.ent[e[1]][e[2]][1] \notin Alloc(s)}
 \* the same counts for every in-use inode at once (one pass over the entries per inode instead of one per use)
 NameMap(s) == LET E == Entries(s) IN [i \in Alloc(s) |-> Cardinality({e \in E : s.ent[e[1]][e[2]][1] = i})]
 RefMap(s) == LET N == NameMap(s) IN [i \in Alloc(s) |-> N[i] + (IF s.ty[i] = FTDIR THEN 1 + SubDirs(s, i) ELSE 0)]
-WantR(s, R, i) == IF s.ty[i] = FTDIR /\ R[i] > LinkMax THEN 1 ELSE R[i]
-SaturatedR(s, R, i) == s.ty[i] = FTDIR /\ s.links[i] = 1 /\ (i \in s.sat \/ R[i] > LinkMax)
+WantR(s, R, i) == WantOf(s.ty[i], R[i])
+SaturatedR(s, R, i) == SaturatedOf(s.ty[i], s.links[i], R[i], i \in s.sat)
 
 MinFree(s) == LET used == Alloc(s) IN
               CHOOSE m \in FirstIno..NInodes : m \notin used /\ \A y \in FirstIno..(m - 1) : y \in used
@@ -71,7 +93,7 @@ Structure(s) ==
         /\ s.ty[i] = FTDIR /\ i # Root =>
               /\ N[i] = 1
               /\ s.dd[i] \in DOMAIN s.ent /\ \E n \in DOMAIN s.ent[s.dd[i]] : s.ent[s.dd[i]][n][1] = i
-        /\ s.ty[i] = FTDIR /\ N[i] + 1 + SubDirs(s, i) > LinkMax => DirNlink
+        /\ OverflowAllowed(s.ty[i], N[i] + 1 + SubDirs(s, i))
    /\ \A e \in Entries(s) : LET t == s.ent[e[1]][e[2]] IN t[1] \in Alloc(s) => t[2] = Ft(s.ty[t[1]])
    /\ s.dd[Root] = Root
 Consistent(s) ==
@@ -110,10 +132,7 @@ NewInode(s, i, t, l, sz) ==
              !.skew = With(@, i, NewSkew(s, i, t)), !.fb = @ - sz, !.zomb = @ \ {i}]
 Expand(s, d, e) == [s EXCEPT !.blk[d] = @ + e, !.fb = @ - e]
 
-MkdirLinks(s, d) ==
-   LET nl == s.links[d] + 1 IN
-   IF DevMkdirNoNlinkRule THEN nl % LinkMod
-   ELSE IF DirNlink /\ (nl > LinkMax \/ s.links[d] = 1) THEN 1 ELSE nl % LinkMod
+MkdirLinks(s, d) == MkdirLinksOf(s.links[d])
 
 \* A request that names an existing entry is refused and NOTHING changes.  Literally (Dev*): the inode had already been
 \* written when the name was looked up; the bitmaps are rolled back, the inode-table slot keeps its link count.
@@ -122,6 +141,7 @@ RefusedExists(s, o, dev) == IF dev /\ HasName(s, o.d, o.n) /\ HasFree(s) THEN [s
 
 Mkdir(s, o) ==          \* debugfs mkdir = ext2fs_mkdir (+ expand_dir and retry)
    IF ~(CanName(s, o.d, o.n) /\ HasFree(s)) THEN RefusedExists(s, o, DevMkdirExistsLeak) ELSE
+   IF MkdirRefusedLinks(s.links[o.d]) THEN s ELSE          \* EMLINK
    LET i == MinFree(s)
        s1 == NewInode(s, i, FTDIR, 2, o.sz)
        s2 == [s1 EXCEPT !.dd = With(@, i, o.d), !.ent = With(@, i, <<>>)]
@@ -162,7 +182,7 @@ Rmdir(s, o) ==          \* debugfs rmdir: must be an empty directory; count := 0
    LET p == s.dd[i]
        s1 == Release(DelName(s, o.d, o.n), i, o.fe)
        s2 == IF p \notin Alloc(s1) THEN s1
-             ELSE IF s1.links[p] > 1 THEN [s1 EXCEPT !.links[p] = @ - 1]
+             ELSE IF RmdirParentLinks(s1.links[p]) # s1.links[p] THEN [s1 EXCEPT !.links[p] = RmdirParentLinks(@)]
              ELSE [s1 EXCEPT !.skew[p] = @ - 1]          \* a parent count of 0 or 1 is left alone: the balance moves
    IN [s2 EXCEPT !.taint = IF \E e \in Entries(s2) : s2.ent[e[1]][e[2]][1] = i THEN @ \cup {i} ELSE @]
 
